@@ -127,6 +127,10 @@ fn run_apply(start: &T, rules_idx: &[usize], iters: usize) -> (Vec<Fail>, u64, u
     (fails, evals, goals, fps, transitions)
 }
 
+/// the "not zero" time limit: far above what any enumerated run needs (they take milliseconds), yet finite, so that a
+/// limit that is misread (wrong unit) shows up as a TimeLimit stop inside a call that returned early
+const GENEROUS_TIME_LIMIT_S: u64 = 2;
+
 #[derive(Clone, Copy, Debug)]
 struct Cfg {
     iter_limit: usize,
@@ -211,7 +215,7 @@ fn run_runner(start: &T, rules_idx: &[usize], c: Cfg) -> (Vec<Fail>, u64, u64, V
     let mut fails = Vec::new();
     let mut evals = 0u64;
     let mut goals = 0u64;
-    let ctx = format!("[Runner iter_limit={} node_limit={} time_limit={} hook={}]", c.iter_limit, c.node_limit, if c.time_zero { "0" } else { "max" }, c.hook);
+    let ctx = format!("[Runner iter_limit={} node_limit={} time_limit={} hook={}]", c.iter_limit, c.node_limit, if c.time_zero { "0" } else { "2s" }, c.hook);
     let rules = mk_rules(rules_idx);
     let re = ar_recexpr(start);
     let hook_fired = std::rc::Rc::new(std::cell::Cell::new(false));
@@ -219,8 +223,9 @@ fn run_runner(start: &T, rules_idx: &[usize], c: Cfg) -> (Vec<Fail>, u64, u64, V
     let calls = std::rc::Rc::new(std::cell::Cell::new(0usize));
     let cl = calls.clone();
     let hookno = c.hook;
+    let t_start = std::time::Instant::now();
     let r = catch(|| {
-        let mut runner: Runner<Ar, (), (), String> = Runner::new(()).with_expr(&re).with_iter_limit(c.iter_limit).with_node_limit(c.node_limit).with_time_limit(if c.time_zero { Duration::ZERO } else { Duration::MAX });
+        let mut runner: Runner<Ar, (), (), String> = Runner::new(()).with_expr(&re).with_iter_limit(c.iter_limit).with_node_limit(c.node_limit).with_time_limit(if c.time_zero { Duration::ZERO } else { Duration::from_secs(GENEROUS_TIME_LIMIT_S) });
         if hookno > 0 {
             runner = runner.with_hook(move |r: &mut Runner<Ar, (), (), String>| {
                 cl.set(cl.get() + 1);
@@ -277,8 +282,8 @@ fn run_runner(start: &T, rules_idx: &[usize], c: Cfg) -> (Vec<Fail>, u64, u64, V
                 }
                 StopReason::TimeLimit => {
                     goals |= 8;
-                    if !c.time_zero {
-                        fails.push(("untrue-stop-reason".into(), format!("TimeLimit reported with an unbounded time limit {ctx}"), String::new()));
+                    if !c.time_zero && t_start.elapsed().as_secs() < GENEROUS_TIME_LIMIT_S {
+                        fails.push(("untrue-stop-reason".into(), format!("TimeLimit reported with a time limit of {GENEROUS_TIME_LIMIT_S} s by a call that returned within that time {ctx}"), String::new()));
                     }
                 }
                 StopReason::Other(msg) => {
@@ -300,7 +305,7 @@ fn run_eqsat_cfg(start: &T, rules_idx: &[usize], c: Cfg) -> (Vec<Fail>, u64, u64
     let mut fails = Vec::new();
     let mut evals = 0u64;
     let mut goals = 0u64;
-    let ctx = format!("[run_eqsat iter_limit={} time_limit={} hook={}]", c.iter_limit, if c.time_zero { "0" } else { "max" }, c.hook);
+    let ctx = format!("[run_eqsat iter_limit={} time_limit={} hook={}]", c.iter_limit, if c.time_zero { "0" } else { "2s" }, c.hook);
     let rules = mk_rules(rules_idx);
     let hook_fired = std::rc::Rc::new(std::cell::Cell::new(false));
     let hf = hook_fired.clone();
@@ -309,8 +314,9 @@ fn run_eqsat_cfg(start: &T, rules_idx: &[usize], c: Cfg) -> (Vec<Fail>, u64, u64
     let hookno = c.hook;
     let mut eg = EGraph::<Ar>::default();
     eg.add_expr(ar_recexpr(start));
+    let t_start = std::time::Instant::now();
     let r = catch(|| {
-        run_eqsat(&mut eg, rules, c.iter_limit, if c.time_zero { 0 } else { usize::MAX }, move |eg: &mut EGraph<Ar>| {
+        run_eqsat(&mut eg, rules, c.iter_limit, if c.time_zero { 0 } else { GENEROUS_TIME_LIMIT_S as usize }, move |eg: &mut EGraph<Ar>| {
             cl.set(cl.get() + 1);
             if hookno >= 4 {
                 eg.add(Ar::Num(1000 + cl.get() as u32));
@@ -361,8 +367,10 @@ fn run_eqsat_cfg(start: &T, rules_idx: &[usize], c: Cfg) -> (Vec<Fail>, u64, u64
                 }
                 StopReason::TimeLimit => {
                     goals |= 8;
-                    if !c.time_zero {
-                        fails.push(("untrue-stop-reason".into(), format!("TimeLimit reported with an unbounded time limit {ctx}"), String::new()));
+                    // the harness's own clock brackets the call: a limit of N seconds cannot have been exceeded inside a call
+                    // that took less than N seconds outside
+                    if !c.time_zero && t_start.elapsed().as_secs() < GENEROUS_TIME_LIMIT_S {
+                        fails.push(("untrue-stop-reason".into(), format!("TimeLimit reported with a time limit of {GENEROUS_TIME_LIMIT_S} s by a call that returned within that time {ctx}"), String::new()));
                     }
                 }
                 StopReason::Other(msg) => {
@@ -391,11 +399,14 @@ impl Prop for SaturateProp {
             Seg { name: "run_eqsat: terms x rule-sets x limits x hooks".into(), count: nt * nr * (nc / 3), what: "one index = start term x rule set x configuration (iter_limit, time_limit 0/max, hook) for run_eqsat".into() },
         ]
     }
+    fn replay_exempt(&self, f: &Failure) -> bool {
+        f.kind == "untrue-stop-reason" && f.key.starts_with("TimeLimit reported")
+    }
     fn goals(&self) -> Vec<&'static str> {
         vec!["stop_saturated", "stop_iteration_limit", "stop_node_limit", "stop_time_limit", "stop_other_hook", "apply_rewrites_false_seen", "change_without_new_nodes"]
     }
     fn rule(&self) -> String {
-        "Start terms (binder-heavy specials, three-slot terms whose class gains symmetries stepwise, all terms of size <=2 (thorough 3)) x rule sets (each single rule of the 22-rule pool, 8 chosen pairs/triples, the full pool, the empty set). (1) apply_rewrites up to 5 times: whenever it returns false an independent fingerprint (node count, per-class slots / e-nodes / symmetry count by brute-force eq over all permutations, canonical form of every known invocation) taken before must equal the one taken after. (2) Runner::run and (3) run_eqsat under every combination of iter_limit 0/1/2/5, node_limit 1/10/10000, time_limit 0/unbounded and hooks none / fail at call 1 / fail at call 2 / fail at 8 nodes / insert a new term on every call / insert and fail at call 2: report.egraph_nodes equals the e-graph's, iterations <= iter_limit+2, the stop reason is true of the final state (limit really exceeded, hook really failed, TimeLimit only with limit 0), and after Saturated one more application of all rules changes nothing and every match of every rule already has equal sides. Non-trivial = runs, distinct states = (reason, iterations, nodes).".into()
+        "Start terms (binder-heavy specials, three-slot terms whose class gains symmetries stepwise, all terms of size <=2 (thorough 3)) x rule sets (each single rule of the 22-rule pool, 8 chosen pairs/triples, the full pool, the empty set). (1) apply_rewrites up to 5 times: whenever it returns false an independent fingerprint (node count, per-class slots / e-nodes / symmetry count by brute-force eq over all permutations, canonical form of every known invocation) taken before must equal the one taken after. (2) Runner::run and (3) run_eqsat under every combination of iter_limit 0/1/2/5, node_limit 1/10/10000, time_limit 0 / 2 s (far above what any enumerated run needs; the harness clock brackets the call) and hooks none / fail at call 1 / fail at call 2 / fail at 8 nodes / insert a new term on every call / insert and fail at call 2: report.egraph_nodes equals the e-graph's, iterations <= iter_limit+2, the stop reason is true of the final state (limit really exceeded, hook really failed, TimeLimit only with limit 0 or when the call really lasted that long), and after Saturated one more application of all rules changes nothing and every match of every rule already has equal sides. Non-trivial = runs, distinct states = (reason, iterations, nodes).".into()
     }
     fn assumptions(&self) -> Vec<String> {
         vec!["time limits are only 0 or unbounded, the two values whose outcome does not depend on the wall clock".into()]
